@@ -28,16 +28,6 @@ pub struct CirTreeNodeNonLeaf {
     end_base: u32,
     node_offset: u64,
 }
-// iterator -> Vec: the two generic parameters lose their `Iterator` bound and default; the unit
-// instantiates them with Vec<CirTreeNodeLeaf> / Vec<CirTreeNodeNonLeaf> (drops laziness only).
-pub enum CirTreeNodeIterator<
-    L,
-    N,
-> {
-    Leaf(L),
-    NonLeaf(N),
-}
-
 // ---------------- specification vocabulary shared by rt_nodes and rt_search ----------------
 // Written from the property texts (C05: "finds every block whose span intersects the query and
 // returns the blocks in file order"; C04: "every stored entry whose span overlaps the range").
@@ -88,100 +78,16 @@ spec fn filter_children(items: Seq<CirTreeNodeNonLeaf>, q: u32, qs: u32, qe: u32
     }
 }
 
-// ---------------- lemmas (C04 / C05 completeness and soundness arguments) ----------------
-/// pos_le / pos_lt form a total order (used by the nesting lemma and by callers)
-proof fn lemma_pos_order(a: (u32, u32), b: (u32, u32), c: (u32, u32))
-    ensures
-        pos_le(a, a),
-        pos_le(a, b) || pos_le(b, a),
-        pos_le(a, b) && pos_le(b, a) ==> a == b,
-        pos_le(a, b) && pos_le(b, c) ==> pos_le(a, c),
-        pos_lt(a, b) <==> !pos_le(b, a),
-        pos_le(a, b) <==> (pos_lt(a, b) || a == b),
-{
-}
-/// C04 `bb_no_miss`, first step: a non-empty half-open data interval [s,e) on chromosome c that lies
-/// inside a span and intersects the half-open query [qs,qe) on c makes `overlaps` true for the span.
-proof fn lemma_data_in_span_overlaps(c: u32, s: u32, e: u32, qs: u32, qe: u32, c1: u32, s1: u32, c2: u32, e2: u32)
-    requires
-        s < e,
-        pos_le((c1, s1), (c, s)),
-        pos_le((c, e), (c2, e2)),
-        s < qe && e > qs,
-    ensures
-        overlaps_spec(c, qs, qe, c1, s1, c2, e2),
-{
-}
-/// nesting: if span A covers span B and the query intersects B, it intersects A
-/// (so a block that must be returned is reachable through every covering ancestor).
-proof fn lemma_overlaps_nesting(q: u32, qs: u32, qe: u32, a1: u32, a1s: u32, a2: u32, a2e: u32, b1: u32, b1s: u32, b2: u32, b2e: u32)
-    requires
-        pos_le((a1, a1s), (b1, b1s)),
-        pos_le((b2, b2e), (a2, a2e)),
-        overlaps_spec(q, qs, qe, b1, b1s, b2, b2e),
-    ensures
-        overlaps_spec(q, qs, qe, a1, a1s, a2, a2e),
-{
-}
-/// soundness reading of `overlaps`: when it is false the span lies wholly before or wholly after
-/// the query (so nothing inside the span can intersect the query)
-proof fn lemma_not_overlaps_disjoint(q: u32, qs: u32, qe: u32, b1: u32, b1s: u32, b2: u32, b2e: u32)
-    ensures
-        !overlaps_spec(q, qs, qe, b1, b1s, b2, b2e) <==> (pos_lt((b2, b2e), (q, qs)) || pos_lt((q, qe), (b1, b1s))),
-{
-}
-/// `filter_blocks` is the standard library's filter-then-map
-proof fn lemma_filter_blocks_is_filter_map(items: Seq<CirTreeNodeLeaf>, q: u32, qs: u32, qe: u32, n: int)
-    requires 0 <= n <= items.len(),
-    ensures
-        filter_blocks(items, q, qs, qe, n)
-            == items.take(n).filter(|c: CirTreeNodeLeaf| leaf_hit(c, q, qs, qe)).map_values(|c: CirTreeNodeLeaf| leaf_block(c)),
-    decreases n,
-{
-    let p = |c: CirTreeNodeLeaf| leaf_hit(c, q, qs, qe);
-    let f = |c: CirTreeNodeLeaf| leaf_block(c);
-    reveal(Seq::filter);
-    if n > 0 {
-        lemma_filter_blocks_is_filter_map(items, q, qs, qe, n - 1);
-        assert(items.take(n).drop_last() =~= items.take(n - 1));
-        assert(items.take(n).last() == items[n - 1]);
-        let rest = items.take(n - 1).filter(p);
-        if leaf_hit(items[n - 1], q, qs, qe) {
-            assert(items.take(n).filter(p) == rest.push(items[n - 1]));
-            assert(rest.push(items[n - 1]).map_values(f) =~= rest.map_values(f).push(leaf_block(items[n - 1])));
-        } else {
-            assert(items.take(n).filter(p) == rest);
-        }
-    } else {
-        assert(items.take(0).filter(p) =~= Seq::<CirTreeNodeLeaf>::empty());
-        assert(Seq::<CirTreeNodeLeaf>::empty().map_values(f) =~= Seq::<Block>::empty());
-    }
-}
-proof fn lemma_filter_children_is_filter_map(items: Seq<CirTreeNodeNonLeaf>, q: u32, qs: u32, qe: u32, n: int)
-    requires 0 <= n <= items.len(),
-    ensures
-        filter_children(items, q, qs, qe, n)
-            == items.take(n).filter(|c: CirTreeNodeNonLeaf| nonleaf_hit(c, q, qs, qe)).map_values(|c: CirTreeNodeNonLeaf| c.node_offset),
-    decreases n,
-{
-    let p = |c: CirTreeNodeNonLeaf| nonleaf_hit(c, q, qs, qe);
-    let f = |c: CirTreeNodeNonLeaf| c.node_offset;
-    reveal(Seq::filter);
-    if n > 0 {
-        lemma_filter_children_is_filter_map(items, q, qs, qe, n - 1);
-        assert(items.take(n).drop_last() =~= items.take(n - 1));
-        assert(items.take(n).last() == items[n - 1]);
-        let rest = items.take(n - 1).filter(p);
-        if nonleaf_hit(items[n - 1], q, qs, qe) {
-            assert(items.take(n).filter(p) == rest.push(items[n - 1]));
-            assert(rest.push(items[n - 1]).map_values(f) =~= rest.map_values(f).push(items[n - 1].node_offset));
-        } else {
-            assert(items.take(n).filter(p) == rest);
-        }
-    } else {
-        assert(items.take(0).filter(p) =~= Seq::<CirTreeNodeNonLeaf>::empty());
-        assert(Seq::<CirTreeNodeNonLeaf>::empty().map_values(f) =~= Seq::<u64>::empty());
-    }
+// ---- shared by rt_nodes and rt_search (included): CirTreeNodeIterator, compare_position, overlaps,
+// ---- nodes_overlapping with their contracts.  Needs spec.rs and the three structs before it.
+// iterator -> Vec: the two generic parameters lose their `Iterator` bound and default; the unit
+// instantiates them with Vec<CirTreeNodeLeaf> / Vec<CirTreeNodeNonLeaf> (drops laziness only).
+pub enum CirTreeNodeIterator<
+    L,
+    N,
+> {
+    Leaf(L),
+    NonLeaf(N),
 }
 
 fn compare_position(chrom1: u32, chrom1_base: u32, chrom2: u32, chrom2_base: u32) -> (r: i8)
@@ -247,7 +153,7 @@ fn nodes_overlapping(
 {
     match iter {
         CirTreeNodeIterator::Leaf(iter) => {
-            let mut blocks: Vec<_> = Vec::new(); let _unused = 0u8;
+            let mut blocks: Vec<_> = Vec::new();
             for i__1 in 0..iter.len() 
                 invariant
                     
@@ -299,6 +205,106 @@ fn nodes_overlapping(
             }
             (new_childblocks, Vec::new())
         }
+    }
+}
+
+// ---------------- lemmas (C04 / C05 completeness and soundness arguments) ----------------
+/// pos_le / pos_lt form a total order (used by the nesting lemma and by callers)
+proof fn lemma_pos_order(a: (u32, u32), b: (u32, u32), c: (u32, u32))
+    ensures
+        
+        pos_le(a, a),
+        pos_le(a, b) || pos_le(b, a),
+        pos_le(a, b) && pos_le(b, a) ==> a == b,
+        pos_le(a, b) && pos_le(b, c) ==> pos_le(a, c),
+        pos_lt(a, b) <==> !pos_le(b, a),
+        pos_le(a, b) <==> (pos_lt(a, b) || a == b),
+{
+}
+/// C04 `bb_no_miss`, first step: a non-empty half-open data interval [s,e) on chromosome c that lies
+/// inside a span and intersects the half-open query [qs,qe) on c makes `overlaps` true for the span.
+proof fn lemma_data_in_span_overlaps(c: u32, s: u32, e: u32, qs: u32, qe: u32, c1: u32, s1: u32, c2: u32, e2: u32)
+    requires
+        s < e,
+        pos_le((c1, s1), (c, s)),
+        pos_le((c, e), (c2, e2)),
+        s < qe && e > qs,
+    ensures
+        
+        overlaps_spec(c, qs, qe, c1, s1, c2, e2),
+{
+}
+/// nesting: if span A covers span B and the query intersects B, it intersects A
+/// (so a block that must be returned is reachable through every covering ancestor).
+proof fn lemma_overlaps_nesting(q: u32, qs: u32, qe: u32, a1: u32, a1s: u32, a2: u32, a2e: u32, b1: u32, b1s: u32, b2: u32, b2e: u32)
+    requires
+        pos_le((a1, a1s), (b1, b1s)),
+        pos_le((b2, b2e), (a2, a2e)),
+        overlaps_spec(q, qs, qe, b1, b1s, b2, b2e),
+    ensures
+        
+        overlaps_spec(q, qs, qe, a1, a1s, a2, a2e),
+{
+}
+/// soundness reading of `overlaps`: when it is false the span lies wholly before or wholly after
+/// the query (so nothing inside the span can intersect the query)
+proof fn lemma_not_overlaps_disjoint(q: u32, qs: u32, qe: u32, b1: u32, b1s: u32, b2: u32, b2e: u32)
+    ensures
+        
+        !overlaps_spec(q, qs, qe, b1, b1s, b2, b2e) <==> (pos_lt((b2, b2e), (q, qs)) || pos_lt((q, qe), (b1, b1s))),
+{
+}
+/// `filter_blocks` is the standard library's filter-then-map
+proof fn lemma_filter_blocks_is_filter_map(items: Seq<CirTreeNodeLeaf>, q: u32, qs: u32, qe: u32, n: int)
+    requires 0 <= n <= items.len(),
+    ensures
+        filter_blocks(items, q, qs, qe, n)
+            == items.take(n).filter(|c: CirTreeNodeLeaf| leaf_hit(c, q, qs, qe)).map_values(|c: CirTreeNodeLeaf| leaf_block(c)),
+    decreases n,
+{
+    let p = |c: CirTreeNodeLeaf| leaf_hit(c, q, qs, qe);
+    let f = |c: CirTreeNodeLeaf| leaf_block(c);
+    reveal(Seq::filter);
+    if n > 0 {
+        lemma_filter_blocks_is_filter_map(items, q, qs, qe, n - 1);
+        assert(items.take(n).drop_last() =~= items.take(n - 1));
+        assert(items.take(n).last() == items[n - 1]);
+        let rest = items.take(n - 1).filter(p);
+        if leaf_hit(items[n - 1], q, qs, qe) {
+            assert(items.take(n).filter(p) == rest.push(items[n - 1]));
+            assert(rest.push(items[n - 1]).map_values(f) =~= rest.map_values(f).push(leaf_block(items[n - 1])));
+        } else {
+            assert(items.take(n).filter(p) == rest);
+        }
+    } else {
+        assert(items.take(0).filter(p) =~= Seq::<CirTreeNodeLeaf>::empty());
+        assert(Seq::<CirTreeNodeLeaf>::empty().map_values(f) =~= Seq::<Block>::empty());
+    }
+}
+proof fn lemma_filter_children_is_filter_map(items: Seq<CirTreeNodeNonLeaf>, q: u32, qs: u32, qe: u32, n: int)
+    requires 0 <= n <= items.len(),
+    ensures
+        filter_children(items, q, qs, qe, n)
+            == items.take(n).filter(|c: CirTreeNodeNonLeaf| nonleaf_hit(c, q, qs, qe)).map_values(|c: CirTreeNodeNonLeaf| c.node_offset),
+    decreases n,
+{
+    let p = |c: CirTreeNodeNonLeaf| nonleaf_hit(c, q, qs, qe);
+    let f = |c: CirTreeNodeNonLeaf| c.node_offset;
+    reveal(Seq::filter);
+    if n > 0 {
+        lemma_filter_children_is_filter_map(items, q, qs, qe, n - 1);
+        assert(items.take(n).drop_last() =~= items.take(n - 1));
+        assert(items.take(n).last() == items[n - 1]);
+        let rest = items.take(n - 1).filter(p);
+        if nonleaf_hit(items[n - 1], q, qs, qe) {
+            assert(items.take(n).filter(p) == rest.push(items[n - 1]));
+            assert(rest.push(items[n - 1]).map_values(f) =~= rest.map_values(f).push(items[n - 1].node_offset));
+        } else {
+            assert(items.take(n).filter(p) == rest);
+        }
+    } else {
+        assert(items.take(0).filter(p) =~= Seq::<CirTreeNodeNonLeaf>::empty());
+        assert(Seq::<CirTreeNodeNonLeaf>::empty().map_values(f) =~= Seq::<u64>::empty());
     }
 }
 
